@@ -49,6 +49,10 @@ pub fn adj_for_ext_lat(
             .map(|x| (*x.0, RefCell::new(x.1.map(PrayerHour::new)))),
     );
 
+    // A Fajr / Isha defined by an interval exists whenever its Shurooq / Maghrib does: give it
+    // that definition before testing for invalid hours.
+    adj_for_int(params, &hours);
+
     if can_adj(&hours, params.extreme_latitude_method) {
         match params.extreme_latitude_method {
             AngleBased => angle_based(params, &hours),
